@@ -265,6 +265,66 @@ def import_parse_contracts(chk, rule, levels=("type", "member", "nested-parent")
     type_hint_contract(chk, rule)
 
 
+def r5(chk, rule="R5"):
+    # a written-out pair (ghost_owned + ghost_ref, from + into, ...) is SEVERAL entries of one per-kind vector where the shortcut is one:
+    # the "at most one default" / "already defined" uniqueness classes may only be switched on (instr_name = Some) for vectors whose
+    # element type has no applicable_to table (one entry per counterpart by construction: parent, literal, pattern, type_hint)
+    from ..src import calls, render
+    from ..tables import ATTR, VALIDATE
+    chk.rule(rule, "uniqueness diagnostics (one default / one dedicated per counterpart) are applied exactly to the single-entry instruction vectors, never to per-kind vectors (attrs, ghost_attrs) where a written-out pair is legal", floor=5)
+    repo = chk.repo
+    ma = repo.struct(ATTR, "MemberAttrs")
+    elem = {}
+    for f_ in ma["fields"]["fields"]:
+        m = re.fullmatch(r"Vec < (\w+) >", f_["ty"])
+        if m:
+            elem[f_["name"]] = m.group(1)
+
+    def per_kind(ty, depth=0):
+        try:
+            st = repo.struct(ATTR, ty)
+        except Inconclusive:
+            return None
+        fs = st["fields"].get("fields") or []
+        if any(f_["name"] == "applicable_to" for f_ in fs):
+            return True
+        if depth < 2:
+            for f_ in fs:
+                if f_["name"] in ("attr", "core") and re.fullmatch(r"\w+", f_["ty"]):
+                    if per_kind(f_["ty"], depth + 1):
+                        return True
+        return False
+    n = 0
+    for fi in repo.fns(VALIDATE):
+        for c in calls(fi.body, "validate_dedicated_member_attrs"):
+            if len(c["args"]) < 3:
+                continue
+            a0 = render(c["args"][0]).replace(" ", "")
+            m = re.fullmatch(r"&?(?:\w+\.)*(\w+)", a0)
+            name_arg = render(c["args"][2]).replace(" ", "")
+            if not m or m.group(1) not in elem:
+                chk.inconc(rule, f"{fi.qual}: vector argument `{a0[:40]}` of validate_dedicated_member_attrs is not a MemberAttrs field")
+                continue
+            vec = m.group(1)
+            pk = per_kind(elem[vec])
+            if pk is None or not (name_arg == "None" or name_arg.startswith("Some(")):
+                chk.inconc(rule, f"{fi.qual}: uniqueness switch `{name_arg[:30]}` / element type {elem[vec]} not decidable")
+                continue
+            n += 1
+            on = name_arg.startswith("Some(")
+            key = f"uniqueness[{vec}]"
+            if on and pk:
+                chk.bad(rule, key, VALIDATE, c["line"], "uniqueness diagnostics switched on for a per-kind instruction vector: a legal written-out pair of basic instructions (e.g. ghost_owned + ghost_ref) is rejected where its shortcut is accepted",
+                        expected="None", found=name_arg)
+            elif not on and not pk:
+                chk.bad(rule, key, VALIDATE, c["line"], "uniqueness diagnostics switched off for a single-entry instruction vector (documented misuse 'at most one default' / 'already defined' no longer reported)",
+                        expected="Some(<name>)", found=name_arg)
+            else:
+                chk.ok(rule, key, VALIDATE, c["line"])
+    if n < 5:
+        chk.inconc(rule, f"only {n} call sites of validate_dedicated_member_attrs decided (6 confirmed by hand)")
+
+
 def run(chk):
     # a shortcut yields one entry, its written-out basics several: both give the same conversions only if the lookups pick, among
     # several entries of one member, the first that is dedicated AND applicable to the kind (contract decided in C05.R3)
@@ -275,3 +335,4 @@ def run(chk):
     chk.guard("R1", lambda: type_hint_contract(chk, "R1"))
     chk.guard("R2", lambda: r2(chk))
     chk.guard("R3", lambda: r3(chk))
+    chk.guard("R5", lambda: r5(chk))
